@@ -84,6 +84,10 @@ def main(argv=None):
     except HarnessError as e:
         print("HARNESS-ERROR %s" % str(e)[:2000])
         rc = 2
+    except Exception:
+        import traceback
+        print("HARNESS-ERROR unexpected exception in the harness itself:\n%s" % traceback.format_exc()[-2000:])
+        rc = 2
     sys.stdout.flush()
     sys.exit(rc)
 
